@@ -962,3 +962,23 @@ pub fn c01_constructors(subject: &dyn Subject, docs: &[Doc], via: &dyn Fn(&[u8])
         }
     }
 }
+
+
+/// All byte strings of length <= n over a small alphabet (family (a) of C05: arbitrary inputs).
+pub fn all_strings(alphabet: &[u8], n: usize) -> Vec<Doc> {
+    let mut out = vec![Doc::new("str", Vec::new())];
+    let mut level: Vec<Vec<u8>> = vec![Vec::new()];
+    for _ in 0..n {
+        let mut next = Vec::with_capacity(level.len() * alphabet.len());
+        for p in &level {
+            for &c in alphabet {
+                let mut q = p.clone();
+                q.push(c);
+                next.push(q);
+            }
+        }
+        out.extend(next.iter().map(|q| Doc::new("str", q.clone())));
+        level = next;
+    }
+    out
+}
